@@ -206,6 +206,7 @@ func checkC01(c *Ctx, r *Report) {
 	enumT, consts := handlingEnum(c)
 	arr := c.Func("", "mergeConfigArr")
 	name := c.FnName(arr)
+	cpyCompleteRule(c, r, "R01f")
 
 	r.Rule("R01a", "mergeConfigArr dispatches every installable configHandling constant through an explicit case; replace/prepend/append/merge classes reach pairwise different strategies; constants of one class reach the same one", 8)
 	ds := findDispatches(arr, enumT)
